@@ -41,7 +41,8 @@ Esc(k, v, upper) ==
 Denotes(k, v) == IF k \in {"octal", "hex"} THEN <<v>> ELSE Utf8(v)
 Codecs == {"octal", "hex", "U", "u"}
 ByteVals == {0, 7, 8, 63, 64, 127, 128, 255}
-RuneVals == {0, 65, 92, 127, 128, 2047, 2048, 55295, 57344, 65533, 65535, 65536, 1114111}
+\* (703710 = U+ABCDE and 917607 = U+E0067 have letters in the high hex digits, 134071 = U+20BB7 lies in an even plane)
+RuneVals == {0, 65, 92, 127, 128, 2047, 2048, 55295, 57344, 65533, 65535, 65536, 134071, 703710, 917607, 1114111}
 Vals(k) == IF k \in {"octal", "hex"} THEN ByteVals ELSE RuneVals
 
 \* ---- Format: every sequence of <= 2 values (and a longer one) -> escaped text
